@@ -92,7 +92,7 @@ def domain_size(ty, cards):
     if is_bv(ty):
         return 2 ** ty[1]
     if is_sort(ty):
-        return cards[ty[1]]
+        return cards.get(ty[1], 2)
     if is_arr(ty):
         i, e = domain_size(ty[1], cards), domain_size(ty[2], cards)
         if e == 1:
@@ -111,7 +111,7 @@ def domain_iter(ty, cards):
             raise NoSemantics("binder over BV%d" % ty[1])
         return range(2 ** ty[1])
     if is_sort(ty):
-        return range(cards[ty[1]])
+        return range(cards.get(ty[1], 2))
     raise NoSemantics("binder over unbounded sort %r" % (ty,))
 
 
